@@ -36,6 +36,7 @@ type c08Conn struct {
 	Head  []string `json:"head"`
 	Pad   int      `json:"pad"`
 	R     int      `json:"r"`
+	RS    int      `json:"rs"` // buffer size of the service's first Read
 }
 
 type c08Step struct {
@@ -140,8 +141,15 @@ func stubFor(remote string) (recs []stubRecord) {
 func c08RunConn(m *memListener, c c08Conn) c08Obs {
 	payload := c08Payload(c)
 	c08Remote++
-	rport := 10000 + c08Remote%50000
-	rip := fmt.Sprintf("198.51.%d.7", 100+(c08Remote/50000)%100)
+	rsIdx := 0
+	for i, z := range stubReadSizes {
+		if z == c.RS {
+			rsIdx = i
+		}
+	}
+	// the low two bits of the remote port tell the stub how large its first Read is
+	rport := 10000 + (c08Remote%12000)*4 + rsIdx
+	rip := fmt.Sprintf("198.51.%d.7", 100+(c08Remote/12000)%100)
 	obs := c08Obs{Sent: hex.EncodeToString(payload)}
 	if c.Proto == "udp" {
 		raddr := udpAddr(rip, rport)
